@@ -63,6 +63,8 @@ func VerifLemma_C19C_NetrcMachine() {
 		} else {
 			e.name = verifNondetStringN(verifNondetChoice(verifParam("N")) + 1)
 			vhLower(e.name)
+			// names that are keywords of the .netrc syntax start a new entry when they appear as a token
+			verifAssume(e.name != "default" && e.name != "machine")
 			for j := 0; j < i; j++ {
 				verifAssume(entries[j].name != e.name)
 			}
